@@ -1080,6 +1080,20 @@ def _into_iter(m, a, c):
         return _elem_refs(v)
     if isinstance(v, Term):
         return Term("iter", v)
+    if isinstance(v, Adt) and v.path in m.facts.adts and not m.facts.impls_of(trait="std::iter::Iterator", self_adt=v.path):
+        # a crate type that is not itself an iterator: its own IntoIterator impl (by value; the impls for references
+        # are separate items and are selected by the receiver's type in the call's type arguments)
+        st = (targs[0] if targs else "") or (c.get("self_ty") or "")
+        cands = []
+        for imp in m.facts.impls_of(trait="std::iter::IntoIterator", self_adt=v.path):
+            ity = imp.get("self_ty") or ""
+            if ity.startswith("&") != st.startswith("&"):
+                continue
+            for it in imp["items"]:
+                if it["name"] == "into_iter" and it["path"] in m.facts.bodies:
+                    cands.append(it["path"])
+        if len(cands) == 1:
+            return m.call_path(cands[0], [a[0]])
     return PyIter(items_of(v))
 
 
@@ -1738,6 +1752,12 @@ def _default(m, a, c):
         return NONE
     if st.startswith("std::vec::Vec"):
         return PyVec()
+    if st.startswith(("std::collections::BTreeSet", "std::collections::HashSet")):
+        return PySet()
+    if st.startswith(("std::collections::BTreeMap", "std::collections::HashMap")):
+        return PyMap()
+    if st == "std::string::String":
+        return ""
     for imp in m.facts.impls:
         if imp["trait"] == "std::default::Default" and imp["self_ty"].split("<")[0] == st.split("<")[0]:
             for it in imp["items"]:
